@@ -1,6 +1,7 @@
 import PdfModel.Core.Proto
 import PdfModel.Model.Parser
 import PdfModel.Model.ParserCursor
+import PdfModel.Model.Crypt
 import PdfModel.Model.Serialize
 import PdfModel.Spec.Render
 import PdfModel.Drv.Obj
@@ -27,6 +28,8 @@ import PdfModel.Drv.Obj
         mode stm: parse_stream (id.gen of the context)  → ok <value> <pos>
   c03.parsec <buf> <pos> <flags> <fileoff> <lens>   parse_with_lexer with the cursor afterwards (Model/ParserCursor)
                                        → ok <value> <pos> <cursor> | err <cursor> | panic
+  c03.parsedec ind0|ind1 <buf> <pos> <flags> <fileoff> <lens> <objkey>   parse_indirect_object with a decoder whose
+                                       per-object RC4 key is <objkey> → ok <id>.<gen> <value> <pos> | err | panic
   c03.tails                            → the tails of Spec/Render.tails, hex, comma separated
   c03.render val <value> <tape> <tail>          → <bytes>   (Spec/Render.renderWithTail)
   c03.render ind <value> <tape> <tail> <id> <gen>
@@ -154,6 +157,18 @@ def handle (args : List String) : String :=
       | (.err, c) => s!"err {c}"
       | (o, _) => o.tag
     | _, _, _, _, _ => "bad-request"
+  | ["c03.parsedec", mode, b, p, f, off, lens, key] =>
+    -- parse_indirect_object with a decoder: every string of the object is RC4-decrypted with the object key `key`
+    -- (computed by the harness from the file key, the object number and the generation)
+    match bufOf b, natOf p, natOf f, natOf off, lenMapOf lens, bytesOfHex key with
+    | some buf, some pos, some flags, some off, some lens, some key =>
+      let env0 := mkEnv (mode == "ind1") off lens
+      let env : Env (List UInt8) := { env0 with decrypt := some fun _ _ s => Crypt.rc4Encrypt key s }
+      if mode == "ind0" || mode == "ind1" then
+        showOut (fun (r : ((Nat × Nat) × V) × Nat) => s!"{r.1.1.1}.{r.1.1.2} {showVal r.1.2} {r.2}")
+          (parseIndirectObject env buf (defaultFuel buf) pos flags)
+      else "bad-request"
+    | _, _, _, _, _, _ => "bad-request"
   | ["c03.tails"] => joinWith "," (PdfSpec.tails.map hexOfBytes)
   | ["c03.render", "val", v, tape, tail] =>
     match valOf v, tapeOf tape, bytesOfHex tail with
